@@ -35,6 +35,8 @@ ARR = {
     'swap': ('pos', 'row'), 'iswap': ('row', 'pos'),
     'xprune': ('pos', 'ls'),
     'relax_end': ('pos', 'pos'),
+    # depth-first-search work arrays of the symbolic phase (per panel column for the panel versions: the *_col aliases inherit the range)
+    'segrep': (None, 'pos'), 'repfnz': ('pos', 'pos'), 'parent': ('pos', 'pos'), 'xplore': ('pos', 'ls'),
 }
 STORE_CHECKED = {'perm_r', 'iperm_r', 'perm_c', 'iperm_c', 'swap', 'iswap', 'supno', 'xsup'}
 EXT = {'row': 'M', 'col': 'N', 'pos': 'N'}
@@ -290,6 +292,8 @@ class Analyzer(object):
         ki = self.kind(e.c[1], env)
         nm = self.array_name(b)
         if nm:
+            if ARR[nm][0] is None:
+                return
             self.nsub += 1
             ka = ('role', ARR[nm][0])
             if conflict(ki, ka):
@@ -317,7 +321,7 @@ class Analyzer(object):
             if nm is None:
                 continue
             self.ncall += 1
-            if ARR[nm] != ARR[pname]:
+            if ARR[nm] != ARR[pname] and None not in (ARR[nm][0], ARR[pname][0]):
                 self.report('K3:%s(%s<-%s)' % (name, pname, nm), e,
                             'argument `%s` (%s -> %s) is passed for parameter `%s` of %s, which is used as a map from %s to %s'
                             % (nm, describe(('role', ARR[nm][0])), describe(('role', ARR[nm][1])), pname, name, describe(('role', ARR[pname][0])),
@@ -388,7 +392,29 @@ class Analyzer(object):
         return self.reports
 
 
+_CONTROL_OK = {}
+
+
+def positive_control():
+    """fixtures/r11_kinds.c must be reported for K1, K2, K3 and K4 (the expected count on a healthy tree is zero)"""
+    if _CONTROL_OK:
+        return
+    import os
+    from ..facts import Program
+    from ..run import VERIF, AnalysisBroken
+    fx = Program.load(paths=[os.path.join(VERIF, 'fixtures', 'r11_kinds.c')])
+    f = fx.func('getata')
+    if f is None:
+        raise AnalysisBroken('R11 positive control: fixtures/r11_kinds.c not parsed')
+    reps = Analyzer(fx, f).run()
+    kinds = sorted({k.split(':')[0] for k in reps})
+    if kinds != ['K1', 'K2', 'K3', 'K4']:
+        raise AnalysisBroken('R11 positive control: expected K1..K4 on fixtures/r11_kinds.c, engine saw %s' % sorted(reps))
+    _CONTROL_OK['ok'] = sorted(reps)
+
+
 def run(chk, cid, prog, cfgname, units=None, funcs=None, floor=None):
+    positive_control()
     chk.clause(cid, 'subscripts, stored values and array arguments have the index kind the array is documented to take')
     tot = [0, 0, 0, 0]
     nf = 0
@@ -421,5 +447,6 @@ def run(chk, cid, prog, cfgname, units=None, funcs=None, floor=None):
     if floor is not None and sum(tot) < floor:
         from ..run import AnalysisBroken
         raise AnalysisBroken('R11: %d kind obligations examined, floor %d' % (sum(tot), floor))
+    chk.samples.append('positive control fixtures/r11_kinds.c -> reported: %s (expected)' % _CONTROL_OK.get('ok'))
     chk.notes.append('%s R11: %d functions, %d subscripts, %d array arguments, %d stores, %d local-array subscripts' % (cfgname, nf, tot[0], tot[1], tot[2], tot[3]))
     return sum(tot)
